@@ -277,7 +277,7 @@ def _star_big(out, pid, seed, thorough):
     wd = workdir(pid + "-big")
     tr = os.path.join(wd, "star.ndjson")
     # every threshold 1..40 (quick 1..20) in turn, then sampled large ones (up to 64 / 200, and 257+ thorough)
-    sweep = 40 if thorough else 20
+    sweep = 130 if thorough else 66
     n = sweep + (24 if thorough else 6)
     cmd = ["star-record", "--out", tr, "--seed", seed, "--scenarios", n, "--maxt", 260 if thorough else 64,
            "--prop", pid, "--selections", 40 if thorough else 16, "--sweep", sweep, "--bigt", 300 if thorough else 257]
@@ -381,6 +381,9 @@ def _sharded_trace(out, pid, module, cfg, record_cmd_fn, shards, label):
         out.transitions += max(res.generated - 1, 0)
         out.extra.setdefault("trace_validation", []).append(
             {"spec": module, "events": sum(1 for _ in open(tr)), "accepted": rej is None, "wall_s": round(res.wall, 1)})
+        if getattr(res, "agree", None):
+            out.extra["trace_validation"][-1]["outcomes_equal_to_reference_model"] = res.agree[0]
+            out.extra["trace_validation"][-1]["outcomes_judged_by_contract"] = res.agree[1]
         if rej is not None:
             ev = rej.get("ev", {})
             evname = ev.get("ev", "?") if isinstance(ev, dict) else str(rej.get("invariant"))
@@ -501,8 +504,8 @@ def c03(tier, seed):
     _star_secrecy(out, "Star_secrecy_t.cfg")
     _star_secrecy(out, "Star_secrecy.cfg")
     _expect_spec_violation(out, "MC_Secrecy", "Secrecy_legacy.cfg", "NoXorLeak with a constant cipher nonce")
-    for k in range(4 if thorough else 1):
-        out.add_vh(run_vh(["cipher-check", "--seed", seed + k, "--groups", 60 if thorough else 16], timeout=3000), only={"C03"})
+    for k in range(8 if thorough else 1):
+        out.add_vh(run_vh(["cipher-check", "--seed", seed + k, "--groups", 96 if thorough else 16], timeout=3000), only={"C03"})
     out.add_vh(run_vh(["length-sweep", "--prop", "C03", "--seed", seed, "--max", 520 if thorough else 200], timeout=3000), only={"C03"})
     return out
 
@@ -563,9 +566,9 @@ def c08(tier, seed):
     lp = _wire_table(out, "WireFaults_t.cfg" if thorough else "WireFaults_q.cfg", "C08-faults")
     out.add_vh(run_vh(["wire-replay", "--lines", lp, "--prop", "C08"], timeout=3000), only={"C08"})
     _sharded_trace(out, "C08", "Trace_Wire", "Trace_Wire.cfg",
-                   lambda k, tr: ["wire-record", "--out", tr, "--seed", seed + k, "--n", 6 if thorough else 3,
+                   lambda k, tr: ["wire-record", "--out", tr, "--seed", seed + k, "--n", 8 if thorough else 3,
                                   "--tier", tier, "--decoders", "sharks,adss,message"],
-                   6 if thorough else 2, "decoder call log")
+                   16 if thorough else 2, "decoder call log")
     return out
 
 
@@ -584,7 +587,7 @@ def c09(tier, seed):
                        "the crates with overflow checks and debug assertions on"]
     lp = _wire_table(out, "WireFaults_t.cfg" if thorough else "WireFaults_q.cfg", "C09-faults")
     out.add_vh(run_vh(["wire-replay", "--lines", lp, "--prop", "C09"], timeout=3000), only={"C09"})
-    for k in range(4 if thorough else 1):
+    for k in range(24 if thorough else 1):
         out.add_vh(run_vh(["crash-sweep", "--seed", seed + k, "--tier", tier], timeout=3000), only={"C09"})
     return out
 
@@ -614,8 +617,8 @@ def c12(tier, seed):
     _oprf_cases(out, "C12-mc")
     rh = run_tlc("MC_Oprf", "Oprf_hist.cfg", workers=6, timeout=900, tag="C12-hist")
     out.add_tlc(rh, "MC_Oprf/Oprf_hist.cfg (request histories)")
-    out.add_vh(run_vh(["oprf-check", "--seed", seed, "--blindings", 64 if thorough else 8,
-                       "--inputs", 80 if thorough else 45], timeout=3000), only={"C12"})
+    out.add_vh(run_vh(["oprf-check", "--seed", seed, "--blindings", 128 if thorough else 8,
+                       "--inputs", 160 if thorough else 45], timeout=3000), only={"C12"})
     _purity(out, "C12", seed, rounds=4 if tier == "thorough" else 3)
     return out
 
@@ -633,10 +636,10 @@ def c13(tier, seed):
                 "distinct = (base request, component, class, variant)")
     out.assumptions = ["DLEQ soundness is the ideal-model statement 'accepts exactly the issued statement'", IDEAL]
     lp = _oprf_cases(out, "C13-mc")
-    out.add_vh(run_vh(["dleq-replay", "--lines", lp, "--seed", seed, "--bases", 10 if thorough else 3], timeout=3000), only={"C13"})
-    out.add_vh(run_vh(["nonce-check", "--n", 1024 if thorough else 64], timeout=3000), only={"C13"})
-    out.add_vh(run_vh(["proof-complete", "--seed", seed, "--requests", 12 if thorough else 3], timeout=3000), only={"C13"})
-    rf = run_vh(["dleq-forge", "--seed", seed, "--n", 40 if thorough else 6], timeout=3000)
+    out.add_vh(run_vh(["dleq-replay", "--lines", lp, "--seed", seed, "--bases", 60 if thorough else 3], timeout=3000), only={"C13"})
+    out.add_vh(run_vh(["nonce-check", "--n", 16384 if thorough else 64], timeout=3000), only={"C13"})
+    out.add_vh(run_vh(["proof-complete", "--seed", seed, "--requests", 60 if thorough else 3], timeout=3000), only={"C13"})
+    rf = run_vh(["dleq-forge", "--seed", seed, "--n", 300 if thorough else 6], timeout=3000)
     out.add_vh(rf, only={"C13"})
     out.extra["forgery_positive_controls_ok"] = rf.get("counters", {}).get("positive_controls_ok", 0)
     _purity(out, "C13", seed, rounds=4 if tier == "thorough" else 3)
@@ -656,12 +659,13 @@ def c15(tier, seed):
     out.assumptions = ["bincode ignores trailing bytes and keeps the last of repeated map keys (modelled); compressed points are "
                        "not validated at load time (by design of curve25519-dalek)"]
     lp = _oprf_cases(out, "C15-mc")
-    out.add_vh(run_vh(["dleq-replay", "--lines", lp, "--seed", seed, "--bases", 6 if thorough else 3, "--prop", "C15"]), only={"C15"})
-    out.add_vh(run_vh(["serde-check", "--seed", seed]), only={"C15"})
+    out.add_vh(run_vh(["dleq-replay", "--lines", lp, "--seed", seed, "--bases", 40 if thorough else 3, "--prop", "C15"]), only={"C15"})
+    for k in range(12 if thorough else 1):
+        out.add_vh(run_vh(["serde-check", "--seed", seed + k]), only={"C15"})
     _sharded_trace(out, "C15", "Trace_Wire", "Trace_Wire.cfg",
-                   lambda k, tr: ["wire-record", "--out", tr, "--seed", seed + k, "--n", 2, "--tier", tier,
+                   lambda k, tr: ["wire-record", "--out", tr, "--seed", seed + k, "--n", 4 if thorough else 2, "--tier", tier,
                                   "--decoders", "pk,proof"],
-                   3 if thorough else 1, "loader call log")
+                   12 if thorough else 1, "loader call log")
     return out
 
 
@@ -689,8 +693,11 @@ def c18(tier, seed):
     write_ndjson(lp, lines)
     # small scale (a handful of reports) and large scale (hundreds of groups, > 256 reports per call)
     out.add_vh(run_vh(["agg-replay", "--lines", lp, "--seed", seed, "--scale", 3, "--perms", 3], timeout=3000), only={"C18"})
-    out.add_vh(run_vh(["agg-replay", "--lines", lp, "--seed", seed + 1, "--scale", 100 if thorough else 45,
+    out.add_vh(run_vh(["agg-replay", "--lines", lp, "--seed", seed + 1, "--scale", 250 if thorough else 45,
                        "--perms", 4 if thorough else 3], timeout=3000), only={"C18"})
+    # pool sizes that do not divide a power of two (a partition of the tag space by worker goes wrong there)
+    out.add_vh(run_vh(["agg-replay", "--lines", lp, "--seed", seed + 3, "--scale", 100 if thorough else 60, "--perms", 1,
+                       "--pools", "3,5,6,7,9,11,13,15" if thorough else "5,7,13"], timeout=3000), only={"C18"})
     # thresholds 1..8 with every below-threshold size next to sizes t, t+1, 2t (expectation from Aggregator!Expected)
     r = run_tlc("MC_AggSweep", "AggSweep.cfg", workers=1, timeout=300, tags=("AGG",), tag="C18-sweep")
     out.add_tlc(r, "MC_AggSweep/AggSweep.cfg")
